@@ -27,7 +27,8 @@ MIN = {"quick": {"blocked:raises-NotImplemented": 5000, "blocked:no-trace": 5000
                     "frozen:raises": 60000, "frozen:unchanged": 60000}}
 REQUIRED_CELLS = {t: ("class:DynGraph", "class:DynDiGraph", "call:clear", "call:clear_edges", "call:copy",
                       "call:update", "call:add_weighted_edges_from", "call:add_edge", "call:remove_node",
-                      "call:in_edges", "frozen:add_interaction", "frozen:clear_edges", "frozen:add_node")
+                      "call:in_edges", "frozen:add_interaction", "frozen:clear_edges", "frozen:add_node", "frozen-chain:conversion",
+                      "frozen-chain:json", "second-life:clear", "second-life:clear_edges")
                   for t in ("quick", "thorough")}
 
 BLOCKED = ("add_edge", "add_edges_from", "add_weighted_edges_from", "remove_edge", "remove_edges_from",
@@ -56,6 +57,10 @@ def candidates(m, rng):
         ((a, b), {}), ((a, fr), {}), ((fr, fr2), {}), ((a, b, {"w": 1}), {}), ((n0,), {"color": "red"}),
         ((), {"edges": [(a, b)]}), ((), {"nodes": [fr]}), ((), {"edges": [(a, fr)], "nodes": [fr2]}),
         ((None, [a, b]), {}),
+        # edge data shaped like a timeline (what G.interactions() / G.edges(data=True) hand out)
+        (([(a, b, {"t": [[2, 5]]})],), {}), (([(fr, fr2, {"t": [[2, 5]]})],), {}),
+        ((), {"edges": [(fr, fr2, {"t": [[0, 0]]})]}), (([(fr, fr2, [[2, 5]])],), {"weight": "t"}),
+        ((a, fr), {"t": [[1, 3]]}),
     ]
     return c
 
@@ -165,6 +170,34 @@ def enumerate_api(ctx, dn, prog, m, directed, cands, names):
             if how == "property":
                 post_audit(ctx, dn, T, m, detail)
                 break
+            if name in ("clear", "clear_edges") and how == "returned" and not args and not kw:
+                # second life: the emptied graph is refilled (unobserved) with the same history shifted in time
+                ctx.cell("second-life:" + name)
+                mm = Model(directed, True)
+                if name == "clear_edges":
+                    for n_ in m.nodes:
+                        mm.nodes[n_] = {}
+                okk = True
+                for op in prog:
+                    if op[0] == "node":
+                        continue
+                    sh = tuple(op)
+                    if op[0] == "add":
+                        sh = (op[0], op[1], op[2], op[3] + 5, None if op[4] is None else op[4] + 5)
+                    elif op[0] == "addfrom":
+                        sh = (op[0], op[1], op[2] + 5, None if op[3] is None else op[3] + 5)
+                    elif len(op) > 3:
+                        sh = (op[0], op[1], op[2] + 5, None if op[3] is None else op[3] + 5)
+                    else:
+                        sh = (op[0], op[1], op[2] + 5)
+                    got, ex = driver.outcome(dn, T, sh)
+                    if got is not None or gen.advance(mm, sh) is not None:
+                        okk = False
+                        break
+                if okk:
+                    guarded(ctx, "other:second-life", audit.audit_all, ctx, dn, T, mm, "second-life:",
+                            ("C01", "C03", "C04", "C05"))
+                continue
             if is_blocked_call(name, args, kw, directed) and how != "TypeError":
                 # (a TypeError here means the synthesised arguments do not fit the signature)
                 ctx.expect("blocked:raises-NotImplemented", how, "NetworkXNotImplemented", detail)
@@ -217,6 +250,42 @@ def frozen_calls(m, directed):
         calls += [("add_star", lambda G, dn: G.add_star([a, b, fr], t)),
                   ("add_cycle", lambda G, dn: G.add_cycle([a, b, fr], t))]
     return calls
+
+
+def frozen_chain(ctx, dn, prog, m, directed):
+    """freeze(G) -> derive X from G (conversion / JSON round trip copy the graph attributes) -> freeze(X):
+    X must be immutable too"""
+    import json
+    from dynetx.readwrite import json_graph
+    F = rebuild(dn, prog, directed)
+    dn.freeze(F)
+    derived = [("conversion", (lambda: F.to_undirected()) if directed else (lambda: F.to_directed())),
+               ("json", lambda: json_graph.node_link_graph(json.loads(json.dumps(json_graph.node_link_data(F)))))]
+    for how, make in derived:
+        for name, f in (("add_node", lambda G: G.add_node("zz9")), ("clear_edges", lambda G: G.clear_edges()),
+                        ("clear", lambda G: G.clear()), ("add_nodes_from", lambda G: G.add_nodes_from(["zz9"]))):
+            try:
+                X = make()
+            except Exception as ex:
+                if raised_in_library(ex):
+                    ctx.skip("frozen-chain: derivation raised %s" % type(ex).__name__)
+                    break
+                raise
+            dn.freeze(X)
+            ctx.expect("frozen:is_frozen", (dn.is_frozen(X), True), (True, True), dict(derived=how))
+            before = observe.snapshot(X)
+            got = None
+            try:
+                f(X)
+            except Exception as ex:
+                got = type(ex).__name__
+            ctx.cell("frozen-chain:" + how)
+            detail = dict(call=name, derived_from_frozen_graph_by=how)
+            ctx.count("frozen:raises")
+            if got is None:
+                ctx.finding("frozen:raises", "unclassified:frozen:raises", dict(detail, observed="no exception"))
+            d = observe.diff(before, observe.snapshot(X))
+            ctx.expect("frozen:unchanged", d, [], dict(detail, exception=got, differing=d))
 
 
 TIMED = ("add_interaction", "add_interactions_from", "add_path", "add_star", "add_cycle",
@@ -284,6 +353,8 @@ def run(ctx, dn):
             cands = [c for i, c in enumerate(cands) if i % 3 == k % 3 or i == 0]
         enumerate_api(ctx, dn, prog, m, directed, cands, names)
         frozen(ctx, dn, prog, m, directed)
+        if all(isinstance(n_, (int, str)) for n_ in m.nodes):
+            frozen_chain(ctx, dn, prog, m, directed)
         if k < 2:
             ctx.sample(dict(ctx.case, names=names))
         k += 1
